@@ -231,8 +231,18 @@ def r1_term_rendering(R) -> None:
             got = shape(v)
             R.check(norm(got) == norm(want), g.q, 'code-str-index:' + show(got), "named-period access renders self['NAME', index]",
                     f'named-period access renders `{show(got)}`, expected `{show(want)}`', where=g.where(r))
+        elif any(text(a) in ("self.name.startswith('_')", 'self.name.startswith("_")', "self.name[0] == '_'", "self.name[:1] == '_'") and truth for (a, truth, _tn) in atoms):
+            # names Python would mangle as class-private (`self.__x` inside the class body): read by key instead
+            got_rows['private-name'] = True
+            sh_ = show(shape(v, lambda name: [('sym', 'str(self)')] if code_is_str_self else None))
+            ok = sh_.replace('"', "'").startswith("self.__dict__['_") and 'self.name' in sh_
+            R.check(ok, g.q, 'code-private-name:' + sh_[:50], "a name beginning with `_` is read as self.__dict__['_NAME'][t+k] (no class-private mangling)",
+                    f"the rendering for names beginning with `_` is `{sh_}`, expected `self.__dict__['_<name>']<index>`", where=g.where(r))
         else:
             got_rows['default'] = True
+            underscore_excluded = any(text(a) in ("self.name.startswith('_')", 'self.name.startswith("_")', "self.name[0] == '_'", "self.name[:1] == '_'") and not truth
+                                      for (a, truth, _tn) in atoms)
+            _private_name_rule(R, g, r, v, underscore_excluded)
             def env(name):
                 return [('sym', 'str(self)')] if code_is_str_self else None
             got = shape(v, env)
@@ -242,6 +252,36 @@ def r1_term_rendering(R) -> None:
     for row in ('function', 'verbatim', 'str-index', 'default'):
         if row not in got_rows:
             R.violation(g.q, f'code-row-missing:{row}', f'Term.code has no `{row}` row', where=g.fi.where)
+
+
+def _private_name_rule(R, g, r, v, underscore_excluded: bool) -> None:
+    """`'self._' + NAME` for a NAME that itself begins with `_` is `self.__NAME`: inside the body of the generated class Python
+    rewrites that to `self._Model__NAME` (class-private name mangling), while the array is stored under '__NAME'.  Either
+    term_re admits no such names, or Term.code does not render them that way."""
+    fd = folder(R.repo, P)
+    e = fd.get('term_re')
+    parsed = rx.parse(e.pattern, e.flags)
+    gd = getattr(getattr(parsed, 'state', None), 'groupdict', {}) or {}
+    can = []
+    for gname in ('_VARIABLE', '_PARAMETER', '_ERROR'):
+        num = gd.get(gname)
+        its = rx.find_group(rx.items(parsed), num) if num is not None else None
+        if its is None:
+            continue
+        first = rx.items(its)[0] if rx.items(its) else None
+        cc = rx.charclass(first) if first is not None else None
+        if cc is not None and '_' in cc:
+            can.append(gname)
+    lit = any(isinstance(x, ast.Constant) and isinstance(x.value, str) and x.value.endswith('self._') for x in ast.walk(v))
+    if not lit:
+        return
+    if not can or underscore_excluded:
+        R.check(True, g.q, 'no-private-name-mangling', "`self._NAME` is never `self.__...` (names beginning with `_` are excluded or rendered otherwise)", '', where=g.where(r))
+        return
+    R.violation(g.q, 'private-name-mangled',
+                f"term_re accepts names that begin with `_` (groups {can}) and Term.code renders every variable as `'self._' + NAME`: for `_y` that is `self.__y[t]`, which Python "
+                f"rewrites to `self._Model__y[t]` inside the body of the generated class (class-private name mangling) while the array is stored under '__y': "
+                f"parse_model('Y = _y + X') and build_model() succeed, one evaluation pass raises AttributeError instead of assigning the right-hand side", where=g.where(r))
 
 
 def _mentions_table_loop(fnode: ast.AST) -> bool:
